@@ -1,9 +1,349 @@
-//! C05 — not implemented yet.
-use crate::util::{Args, Out};
-use serde_json::{Value, json};
+//! C05 — the published state layout matches the run-time state accesses: an online
+//! trace checker over the hooked state operations of both runtimes, the cursor at
+//! the end of every dsp call, and VM/WASM state words after every sample.
 
-pub fn meta(_args: &Args) -> Value {
-    json!({"level": "exploration", "rule": "not implemented", "floor": {"quick": 1000000, "thorough": 1000000}})
+use super::c01::corpus_files;
+use super::progcase::{Case, gen_case, input_fn, report};
+use super::{drive, replay_one};
+use crate::run::{Backend, Session, Skeleton};
+use crate::util::{Args, Out};
+use mimium_lang::verif::{self, Backend as HB, Kind, StateEvent};
+use serde_json::{Value, json};
+use state_tree::tree::{SizedType, StateTreeSkeleton};
+use std::path::PathBuf;
+
+#[derive(Clone, Debug, PartialEq, Eq)]
+enum LeafKind {
+    Feed,
+    Mem,
+    Delay,
 }
-pub fn run(_args: &Args, _out: &mut Out) {}
-pub fn replay(_args: &Args, _out: &mut Out, _case: &Value) {}
+
+#[derive(Clone, Debug)]
+struct Leaf {
+    addr: usize,
+    size: usize,
+    kind: LeafKind,
+    path: Vec<usize>,
+}
+
+/// independent prefix-sum walk of a skeleton
+fn leaves(sk: &Skeleton) -> (Vec<Leaf>, usize) {
+    fn rec(s: &Skeleton, addr: &mut usize, path: &mut Vec<usize>, out: &mut Vec<Leaf>) {
+        match s {
+            StateTreeSkeleton::Delay { len } => {
+                out.push(Leaf { addr: *addr, size: *len as usize + 2, kind: LeafKind::Delay, path: path.clone() });
+                *addr += *len as usize + 2;
+            }
+            StateTreeSkeleton::Mem(t) => {
+                out.push(Leaf { addr: *addr, size: t.word_size() as usize, kind: LeafKind::Mem, path: path.clone() });
+                *addr += t.word_size() as usize;
+            }
+            StateTreeSkeleton::Feed(t) => {
+                out.push(Leaf { addr: *addr, size: t.word_size() as usize, kind: LeafKind::Feed, path: path.clone() });
+                *addr += t.word_size() as usize;
+            }
+            StateTreeSkeleton::FnCall(ch) => {
+                for (i, c) in ch.iter().enumerate() {
+                    path.push(i);
+                    rec(c, addr, path, out);
+                    path.pop();
+                }
+            }
+        }
+    }
+    let mut out = vec![];
+    let mut addr = 0;
+    rec(sk, &mut addr, &mut vec![], &mut out);
+    (out, addr)
+}
+
+fn shape(sk: &Skeleton) -> String {
+    match sk {
+        StateTreeSkeleton::Delay { len } => format!("d{len}"),
+        StateTreeSkeleton::Mem(t) => format!("m{}", t.word_size()),
+        StateTreeSkeleton::Feed(t) => format!("f{}", t.word_size()),
+        StateTreeSkeleton::FnCall(c) => format!("({})", c.iter().map(|x| shape(x)).collect::<Vec<_>>().join(",")),
+    }
+}
+
+pub struct Checked {
+    pub violations: Vec<(String, String)>,
+    pub accesses: u64,
+    pub leaves_total: usize,
+    pub leaves_touched: usize,
+    pub layout: String,
+    pub state_words_compared: u64,
+    pub ran: bool,
+    pub kinds_seen: Vec<&'static str>,
+    pub wasm_closure_accesses: u64,
+}
+
+/// Check the events of one dsp call against a leaf table. Returns the set of leaf indices touched.
+fn check_events(evs: &[StateEvent], which: HB, lv: &[Leaf], total: usize, closure_tables: &dyn Fn(i64) -> Option<(Vec<Leaf>, usize)>, touched: &mut [bool], res: &mut Checked, t: usize) {
+    for ev in evs.iter().filter(|e| e.backend == which) {
+        let (table, tot, is_global): (std::borrow::Cow<[Leaf]>, usize, bool) = if ev.ctx_fn == -1 {
+            (std::borrow::Cow::Borrowed(lv), total, true)
+        } else if which == HB::Vm {
+            match closure_tables(ev.ctx_fn) {
+                Some((l, tt)) => (std::borrow::Cow::Owned(l), tt, false),
+                None => continue,
+            }
+        } else {
+            // WASM closure storages: only the declared size is known
+            // WASM closure storages are created with a declared size (64 words when the callee is
+            // not known statically) and grow lazily: nothing to hold the access against.
+            if matches!(ev.kind, Kind::Get | Kind::Set | Kind::Mem | Kind::Delay) {
+                res.wasm_closure_accesses += 1;
+            }
+            continue;
+        };
+        let b = if which == HB::Vm { "vm" } else { "wasm" };
+        match ev.kind {
+            Kind::Push | Kind::Pop => {}
+            Kind::Get | Kind::Set | Kind::Mem | Kind::Delay => {
+                res.accesses += 1;
+                let want = match ev.kind {
+                    Kind::Get | Kind::Set => LeafKind::Feed,
+                    Kind::Mem => LeafKind::Mem,
+                    _ => LeafKind::Delay,
+                };
+                if ev.pos + ev.size > tot {
+                    res.violations.push((
+                        format!("state-access-outside-layout/{b}"),
+                        format!("sample {t}: {:?} at pos={} size={} but the layout has {} words (ctx_fn={})", ev.kind, ev.pos, ev.size, tot, ev.ctx_fn),
+                    ));
+                    continue;
+                }
+                match table.iter().position(|l| l.addr == ev.pos && l.size == ev.size && l.kind == want) {
+                    Some(i) => {
+                        if is_global {
+                            touched[i] = true;
+                        }
+                    }
+                    None => {
+                        let near: Vec<String> = table
+                            .iter()
+                            .filter(|l| l.addr <= ev.pos && ev.pos < l.addr + l.size.max(1))
+                            .map(|l| format!("{:?}@{}+{} {:?}", l.kind, l.addr, l.size, l.path))
+                            .collect();
+                        res.violations.push((
+                            format!("state-access-not-a-layout-cell/{b}"),
+                            format!(
+                                "sample {t}: {:?} at pos={} size={} matches no {:?} cell of the published layout (ctx_fn={}); cells covering that address: {:?}",
+                                ev.kind, ev.pos, ev.size, want, ev.ctx_fn, near
+                            ),
+                        ));
+                    }
+                }
+            }
+        }
+    }
+}
+
+pub fn check(c: &Case) -> Checked {
+    let mut res = Checked {
+        violations: vec![],
+        accesses: 0,
+        leaves_total: 0,
+        leaves_touched: 0,
+        layout: String::new(),
+        state_words_compared: 0,
+        ran: false,
+        kinds_seen: vec![],
+        wasm_closure_accesses: 0,
+    };
+    let inp = input_fn(c.input_seed, c.finite_inputs);
+    let path = c.path.as_ref().map(PathBuf::from);
+    verif::configure(verif::Config { record_state: true, assert_bounds: true, step_budget: 200_000_000 });
+    let _ = verif::take_state_events();
+    let vm = Session::build(Backend::Vm, &c.src, c.scheduler, path.clone());
+    let _ = verif::take_state_events(); // accesses during global initialisation are not dsp's
+    let wasm = Session::build(Backend::Wasm, &c.src, c.scheduler, path);
+    let _ = verif::take_state_events();
+    let (Ok(mut vm), Ok(mut wasm)) = (vm, wasm) else {
+        crate::util::hooks_default();
+        return res;
+    };
+    let (Some(sk_vm), Some(sk_wasm)) = (vm.skeleton.clone(), wasm.skeleton.clone()) else {
+        crate::util::hooks_default();
+        return res;
+    };
+    if sk_vm != sk_wasm {
+        res.violations.push(("published-layout-differs-between-backends".into(), format!("vm {} wasm {}", shape(&sk_vm), shape(&sk_wasm))));
+    }
+    let (lv, total) = leaves(&sk_vm);
+    res.layout = shape(&sk_vm);
+    res.leaves_total = lv.len();
+    if total != sk_vm.total_size() as usize {
+        res.violations.push(("total-size-disagrees-with-prefix-sum".into(), format!("{} vs {}", sk_vm.total_size(), total)));
+    }
+    // the repository's own path -> address mapping must agree with the prefix sum
+    for l in &lv {
+        match sk_vm.path_to_address(&l.path) {
+            Some((a, s)) if a == l.addr && s == l.size => {}
+            other => res.violations.push((
+                "path-to-address-disagrees-with-prefix-sum".into(),
+                format!("path {:?}: path_to_address = {:?}, prefix sum = ({}, {})", l.path, other, l.addr, l.size),
+            )),
+        }
+    }
+    // closure prototypes' layouts (VM): fn index -> leaves
+    let protos: Vec<(Vec<Leaf>, usize)> =
+        vm.vm().map(|m| m.prog.global_fn_table.iter().map(|(_, f)| leaves(&f.state_skeleton)).collect()).unwrap_or_default();
+    let closure_tables = |fi: i64| protos.get(fi as usize).cloned();
+    let mut touched_vm = vec![false; lv.len()];
+    let mut touched_wasm = vec![false; lv.len()];
+    let ich = vm.io.input as usize;
+    let mut inbuf = vec![0.0; ich];
+    for t in 0..c.n {
+        for (k, v) in inbuf.iter_mut().enumerate() {
+            *v = inp(t, k);
+        }
+        let rv = vm.step(&inbuf);
+        let evs = verif::take_state_events();
+        check_events(&evs, HB::Vm, &lv, total, &closure_tables, &mut touched_vm, &mut res, t);
+        let rw = wasm.step(&inbuf);
+        let evs = verif::take_state_events();
+        check_events(&evs, HB::Wasm, &lv, total, &closure_tables, &mut touched_wasm, &mut res, t);
+        match (&rv, &rw) {
+            (Err(p), _) | (_, Err(p)) => {
+                let which = if rv.is_err() { "vm" } else { "wasm" };
+                if p.msg.contains("must be in the future") {
+                    break;
+                }
+                res.violations.push((format!("{}/dsp/{which}", p.sig()), format!("at sample {t}: {} @ {}", p.msg, p.loc)));
+                break;
+            }
+            _ => {}
+        }
+        res.ran = true;
+        // cursor back at the origin
+        let (cv, cw) = (vm.state_cursor(), wasm.state_cursor());
+        if cv != 0 {
+            res.violations.push(("state-cursor-not-at-origin-after-dsp/vm".into(), format!("sample {t}: cursor = {cv}")));
+        }
+        if cw != 0 {
+            res.violations.push(("state-cursor-not-at-origin-after-dsp/wasm".into(), format!("sample {t}: cursor = {cw}")));
+        }
+        // flat words (only where the state holds numbers: generated programs)
+        let (sv, sw) = (vm.state_words(), wasm.state_words());
+        if sw.len() > total {
+            res.violations.push(("wasm-state-storage-larger-than-layout".into(), format!("sample {t}: {} words, layout {}", sw.len(), total)));
+        }
+        if sv.len() != total {
+            res.violations.push(("vm-state-storage-size-differs-from-layout".into(), format!("sample {t}: {} words, layout {}", sv.len(), total)));
+        }
+        if c.prog.is_some() {
+            let n = sv.len().max(sw.len());
+            res.state_words_compared += n as u64;
+            if let Some(k) = (0..n).find(|&k| {
+                let (x, y) = (sv.get(k).copied().unwrap_or(0), sw.get(k).copied().unwrap_or(0));
+                !(x == y || (f64::from_bits(x).is_nan() && f64::from_bits(y).is_nan()))
+            }) {
+                let cell = lv.iter().find(|l| l.addr <= k && k < l.addr + l.size);
+                res.violations.push((
+                    "state-words-differ-between-backends".into(),
+                    format!("after sample {t} word {k}: vm {:#x} wasm {:#x}; cell {:?}", sv.get(k).copied().unwrap_or(0), sw.get(k).copied().unwrap_or(0), cell),
+                ));
+            }
+        }
+        if !res.violations.is_empty() {
+            break;
+        }
+    }
+    res.leaves_touched = touched_vm.iter().filter(|x| **x).count();
+    for (k, name) in [(LeafKind::Feed, "feed"), (LeafKind::Mem, "mem"), (LeafKind::Delay, "delay")] {
+        if lv.iter().zip(touched_vm.iter()).any(|(l, t)| *t && l.kind == k) {
+            res.kinds_seen.push(name);
+        }
+    }
+    // the two runtimes must touch the same cells
+    if res.violations.is_empty() && touched_vm != touched_wasm {
+        res.violations.push((
+            "backends-touch-different-cells".into(),
+            format!("vm touched {:?}, wasm touched {:?} of layout {}", touched_vm, touched_wasm, res.layout),
+        ));
+    }
+    res.violations.dedup_by(|a, b| a.0 == b.0);
+    crate::util::hooks_default();
+    res
+}
+
+fn exec(c: &Case, idx: usize, out: &mut Out) -> bool {
+    let r = check(c);
+    out.count("state_accesses_checked", r.accesses);
+    out.count("state_words_compared", r.state_words_compared);
+    out.count("wasm_closure_state_accesses_not_judged", r.wasm_closure_accesses);
+    out.count("layout_cells", r.leaves_total as u64);
+    out.count("layout_cells_touched_at_run_time", r.leaves_touched as u64);
+    if r.ran {
+        out.set("layouts", r.layout.clone());
+    }
+    for k in &r.kinds_seen {
+        out.count(&format!("cell_kind_exercised:{k}"), 1);
+    }
+    let origin = c.origin.as_deref().unwrap_or("generated");
+    out.count(&format!("origin:{}", origin.split(':').next().unwrap_or("")), 1);
+    report(out, idx, c, &r.violations, &|t| check(t).violations);
+    r.ran && r.leaves_total >= 2 && r.leaves_touched == r.leaves_total
+}
+
+pub fn meta(args: &Args) -> Value {
+    json!({
+        "level": "exploration",
+        "rule": "generated programs with stateful call trees (nested calls up to depth 5, one function at several sites, tuple-valued self, mem/delay mixes, stateful arguments; state in if arms only when not quarantined) and every shipped source that has a dsp, run for n samples on both runtimes with the state hooks recording. Every Get/Set/Mem/Delay operation is matched against the cells of the published skeleton (own prefix-sum walk, cross-checked against path_to_address): address, size and kind must be exactly one cell; the cursor must be 0 after every dsp call; closure storages against their prototype's skeleton; the VM and WASM flat words must agree after every sample. Non-trivial = layout with at least 2 cells, all of which were accessed at run time; distinct = hash of program text + run parameters.",
+        "assumptions": ["hooks record at the VM instruction sites and in the WASM host functions (H2, H7)", "state words are compared only for generated programs (numbers and ring indices); handle-valued state is representation specific"],
+        "floor": {"quick": 20, "thorough": 1000},
+        "case_timeout_s": 40,
+        "hang_is_violation": false,
+        "budget": args.cases(600, 20000),
+    })
+}
+
+pub fn run(args: &Args, out: &mut Out) {
+    let files = corpus_files(&args.repo);
+    let ncorpus = files.len();
+    let ngen = args.cases(600, 20000);
+    drive(
+        args,
+        out,
+        ncorpus + ngen,
+        |idx, rng| {
+            if idx < ncorpus {
+                let f = &files[idx];
+                let src = std::fs::read_to_string(f).ok()?;
+                for bad in ["Sampler", "sampler", "midi", "loadwav", "gen_sampler", "Slider", "Probe"] {
+                    if src.contains(bad) {
+                        return None;
+                    }
+                }
+                let name = f.file_name()?.to_string_lossy().to_string();
+                if args.q(&format!("corpus:{name}")) {
+                    return None;
+                }
+                Some(Case {
+                    src,
+                    n: 24,
+                    input_seed: rng.next(),
+                    finite_inputs: true,
+                    prog: None,
+                    expect: None,
+                    scheduler: true,
+                    path: Some(f.to_string_lossy().to_string()),
+                    origin: Some(format!("corpus:{name}")),
+                })
+            } else {
+                let mut c = gen_case(args, rng, true);
+                // long enough for every ring to wrap
+                c.n = *rng.pick(&[24usize, 40, 72]);
+                Some(c)
+            }
+        },
+        exec,
+    );
+}
+
+pub fn replay(_args: &Args, out: &mut Out, case: &Value) {
+    replay_one::<Case>(out, case, exec);
+}
